@@ -421,6 +421,28 @@ static int do_random(unsigned long seed, int nhist, int nops, char const *prefix
     }
     static int const sizes[] = {1, 3, 8}, ops[] = {1, 1, 1, 2, 2, 3, 3, 3, 4, 5, 6, 6, 7, 8, 9, 10, 12, 17, 18, 19, 21, 22, 22, 23};
     rnd_s = 0x9E3779B97F4A7C15ull ^ (seed * 1000003ull);
+    /* capacity sweep: every request size 1..1300 from several starting capacities (a growth rule may be wrong only for
+       particular sizes); the vector stays empty, so the events are small */
+    {
+        static int const start[] = {0, 8, 16, 32, 100};
+        for (int si = 0; si < 5; ++si)
+        {
+            for (int k = 1; k <= 1300; ++k)
+            {
+                obj o;
+                edge e;
+                memset(&o, 0, sizeof(o));
+                memset(&e, 0, sizeof(e));
+                o.kind = 1;
+                a_vec_ctor(&o.v, (a_size)sizes[k % 3]);
+                if (start[si]) { a_vec_setm(&o.v, (a_size)start[si]); }
+                e.kind = 1; e.siz = (int)o.v.siz_; e.mem = (int)o.v.mem_; e.n = 0; e.op = 10; e.a1 = k;
+                ++n_edges;
+                if (random_step(&o, &e, fo[(n_edges / 256) % nb])) { return 3; }
+                destroy(&o);
+            }
+        }
+    }
     for (int h = 0; h < nhist; ++h)
     {
         obj o;
@@ -431,6 +453,7 @@ static int do_random(unsigned long seed, int nhist, int nops, char const *prefix
         else { o.b = a_buf_new((a_size)siz, (a_size)(8 + rnd() % 48)); }
         for (int t = 0; t < nops; ++t)
         {
+            if (t % 60 == 59 && o.kind == 1) { a_vec_dtor(&o.v, NULL); a_vec_ctor(&o.v, (a_size)sizes[rnd() % 3]); } /* bulk requests on a fresh vector */
             edge e;
             memset(&e, 0, sizeof(e));
             int n = (int)o_num(&o);
@@ -441,10 +464,10 @@ static int do_random(unsigned long seed, int nhist, int nops, char const *prefix
             int where = (int)(rnd() % 8);
             e.a1 = where == 0 ? HUGE_M : where == 1 ? n + 1 : where == 2 ? n : (n ? (int)(rnd() % (unsigned)n) : 0);
             e.a2 = 10 * (int)(rnd() % 10) + (int)(rnd() % 10);
-            if (e.op == 7) { e.nblk = 1 + (int)(rnd() % 3); for (int i = 0; i < e.nblk; ++i) { e.blk[i] = 10 * (int)(rnd() % 10) + i; } e.a2 = e.nblk; }
+            if (e.op == 7) { e.nblk = rnd() % 6 == 0 ? 30 + (int)(rnd() % 40) : 1 + (int)(rnd() % 3); if (n + e.nblk > MAXL - 8) { e.nblk = 1; } for (int i = 0; i < e.nblk; ++i) { e.blk[i] = 10 * (int)(rnd() % 10) + i; } e.a2 = e.nblk; }
             if (e.op == 8) { e.a2 = (int)(rnd() % 4); }
             if (e.op == 12 && rnd() % 4) { e.op = 1; }
-            if (e.op == 9) { e.a1 = n - 2 + (int)(rnd() % 6); if (e.a1 < 0) { e.a1 = 0; } if (e.kind == 2 && e.a1 > e.mem) { e.a1 = e.mem; } if (e.a1 > MAXL - 8) { e.a1 = MAXL - 8; } }
+            if (e.op == 9) { e.a1 = rnd() % 6 == 0 ? n + 20 + (int)(rnd() % 60) : n - 2 + (int)(rnd() % 6); if (e.a1 < 0) { e.a1 = 0; } if (e.kind == 2 && e.a1 > e.mem) { e.a1 = e.mem; } if (e.a1 > MAXL - 8) { e.a1 = MAXL - 8; } }
             if (e.op == 10) { e.a1 = e.kind == 1 ? (int)(rnd() % (unsigned)(n + 12)) : n + (int)(rnd() % 12); if (e.a1 > MAXL) { e.a1 = MAXL; } }
             if (e.op == 18) { e.a1 = (int)(rnd() % (unsigned)(2 * n + 3)) - n - 1; }
             ++n_edges;
